@@ -88,6 +88,9 @@ func newSTWorld(rng *rand.Rand) *stWorld {
 		}
 		w.names[n] = string(b)
 	}
+	if rng.Intn(4) == 0 {
+		w.names["n1"] = "" // the empty identifier is a name like any other
+	}
 	for tok, n := range rawLens {
 		b := make([]byte, n)
 		rng.Read(b)
@@ -140,7 +143,7 @@ func runStorageWord(b Beh, seed int64) ([]J, error) {
 		if err := json.Unmarshal(raw, &s); err != nil {
 			return nil, err
 		}
-		o := J{"ev": "op", "case": b.ID, "i": i, "op": s.Op, "k": s.K, "v": s.V, "ret": "ok", "list": []string{}}
+		o := J{"ev": "op", "case": b.ID, "i": i, "op": s.Op, "k": s.K, "v": s.V, "ret": "ok", "list": []string{}, "sufok": true}
 		switch s.Op {
 		case "Set":
 			if err := st.Set(w.keys[s.K], w.raw[s.V]); err != nil {
@@ -207,6 +210,22 @@ func runStorageWord(b Beh, seed int64) ([]J, error) {
 			}
 			sort.Strings(list)
 			o["list"] = list
+			// listing by suffix: every key is listed under each of its own suffixes, and nothing else is
+			for _, f := range all {
+				for _, sfx := range []string{f, f[len(f)-minInt(1, len(f)):], f[len(f)-minInt(3, len(f)):]} {
+					got, _ := st.KeysWithSuffix(sfx)
+					has := false
+					for _, g := range got {
+						has = has || g == f
+						if !strings.HasSuffix(g, sfx) {
+							o["sufok"] = false
+						}
+					}
+					if !has {
+						o["sufok"] = false
+					}
+				}
+			}
 		case "Entities":
 			es, err := database.Entities()
 			list := []string{}
@@ -908,4 +927,11 @@ func wellFormedConfig(key string, v []byte) bool {
 		return len(v) == 16 // md5
 	}
 	return false
+}
+
+func minInt(a, b int) int {
+	if a < b {
+		return a
+	}
+	return b
 }
